@@ -2,6 +2,7 @@ package keyvalue
 
 import (
 	"context"
+	"errors"
 	"io"
 	"path"
 	"time"
@@ -77,7 +78,31 @@ func (fs *FS) getFile(path string) (*file, error) {
 		return nil, err
 	}
 	f.runOnceFileRecord.record, err = results[0].Record, results[0].Err
-	return &file{fileData: &f}, err
+	return &file{fileData: &f}, fs.refineNotExist(path, err)
+}
+
+// refineNotExist turns a "not exist" error for 'name' into ErrNotDir if the nearest existing ancestor of 'name' is not a directory.
+// A path below a regular file can not be resolved, which the os package reports as ENOTDIR.
+func (fs *FS) refineNotExist(name string, err error) error {
+	if !errors.Is(err, hackpadfs.ErrNotExist) {
+		return err
+	}
+	for dir := path.Dir(name); dir != "."; dir = path.Dir(dir) {
+		results, getErr := getFileRecords(fs.store, []string{dir})
+		if getErr != nil || len(results) != 1 {
+			return err
+		}
+		switch {
+		case results[0].Err == nil:
+			if !results[0].Record.Mode().IsDir() {
+				return hackpadfs.ErrNotDir
+			}
+			return err
+		case !errors.Is(results[0].Err, hackpadfs.ErrNotExist):
+			return err
+		}
+	}
+	return err
 }
 
 // setFile write the 'file' data to the store at 'path'. If 'file' is nil, the file is deleted.
